@@ -821,3 +821,27 @@ shuffle_contract!(shuffle__empty_slice, 0);
 shuffle_contract!(shuffle__permutation_3, 3);
 // @obl props=C01,C14 tier=quick class=bounded fn=core::primitives::shuffle shape="1 symbolic element"
 shuffle_contract!(shuffle__permutation_1, 1);
+
+kproof! {
+    #[kani::unwind(3)]
+    fn probe_c_decaps_min() {
+        let mut rng = SymRng;
+        let (x, p0, a, c0): (u8, u8, u8, u8) = (any_fe(), any_fe(), any_fe(), any_fe());
+        let tag: [u8; 16] = kani::any();
+        let f: [u8; 32] = kani::any();
+        let mut secrets: RevisionVec<Right, RightSecretKey> = RevisionVec::new();
+        secrets.create_chain_with_single_value(right(&[1]), classic(x));
+        let usk = UserSecretKey { id: UserId(LList::new()), ps: vec![Pk { 0: p0 }], secrets, signature: None };
+        let c = vec![Pk { 0: c0 }];
+        let encs = vec![f];
+        let n0 = oracle::n();
+        let res = ok_or_forget(c_decaps(&mut rng, &usk, &Pk { 0: a }, &c, &tag, &encs)).unwrap();
+        assert!(oracle::n() >= n0 + 4, "four hash computations at least");
+        let j = oracle::out(n0 + 3);
+        let mut tag_ij = [0u8; 16];
+        tag_ij.copy_from_slice(&j[..16]);
+        if tag_ij != tag { assert!(res.is_none(), "C02/C07: without a matching tag no secret is returned"); }
+        std::mem::forget(res);
+        std::mem::forget(usk);
+    }
+}
